@@ -350,12 +350,32 @@ def cli_grid(res, pid, tier, seed, known, quick=24, thorough=200, kinds=None):
         res.violations.append({"replay": path})
 
 
-def runtime_standin(res, pid, module, name, seed, count, time_s, prefix=None, label=None, classify=None, known=None, crosscheck=False):
+def asan_failure(r):
+    """An AddressSanitizer abort of a native helper: returns the failing case (last logged input) or None."""
+    if r["returncode"] != 0 and "AddressSanitizer" in r["stderr"]:
+        full = r["stderr"]
+        case = None
+        for line in full.splitlines():
+            if line.startswith("CASE "):
+                case = line[5:]
+        summary = [l for l in full.splitlines() if "ERROR: AddressSanitizer" in l or l.startswith("SUMMARY")]
+        return {"input": json.loads(case) if case else None, "failed": ["AddressSanitizer: " + "; ".join(summary)[:400]],
+                "observed": "memory error in the native extension"}
+    return None
+
+
+def runtime_standin(res, pid, module, name, seed, count, time_s, prefix=None, label=None, classify=None, known=None, crosscheck=False, asan=False):
     """Bounded stand-in: the runtime form of a contract on seeded random inputs (never counted as proved).
     `classify(failure) -> known-finding obligation key or None` separates listed findings from new violations."""
-    r = run_native("runtime_check.py", {"module": module, "name": name, "seed": seed, "count": count, "time_s": time_s,
-                                        "prefix": prefix}, timeout=time_s + 600)
+    r = native.run_script(os.path.join(VERIF, "native", "runtime_check.py"), input_json={
+        "module": module, "name": name, "seed": seed, "count": count, "time_s": time_s, "prefix": prefix, "log_cases": asan},
+        timeout=time_s + 600, asan=asan)
+    if asan and len(r["stderr"]) >= 3900:
+        pass
     js = r["json"]
+    af = asan_failure(r) if asan else None
+    if af is not None:
+        js = {"cases": 0, "distinct_nontrivial": 0, "failures": [af], "samples": [], "bounds": "(aborted by AddressSanitizer)"}
     if js is None:
         res.errors.append(("crash", f"runtime_check {module}.{name}: " + r["stderr"][-800:]))
         return
